@@ -76,6 +76,7 @@ type BlockPipeline struct {
 
 	// State
 	sequenceCounter atomic.Uint64
+	unfinished      atomic.Int64 // accepted by Submit, not yet through the apply stage
 	ctx             context.Context
 	cancel          context.CancelFunc
 	started         atomic.Bool
@@ -186,6 +187,7 @@ func (p *BlockPipeline) Start(ctx context.Context) error {
 		bufSize, // Deprecated: pendingQueueSize is no longer used (kept for API compatibility)
 	)
 	p.applyRunner.SetMetrics(p.metrics)
+	p.applyRunner.onProcessed = func(n int) { p.unfinished.Add(-int64(n)) }
 
 	// Start all stages
 	// Note: p.ctx is derived from the passed ctx via context.WithCancel above
@@ -230,15 +232,20 @@ func (p *BlockPipeline) Submit(ctx context.Context, blockType uint, rawCbor []by
 	// if we allocated in a non-blocking attempt that failed.
 	item := NewBlockItem(blockType, rawCbor, tip, p.sequenceCounter.Add(1)-1)
 
+	// Count the item before it becomes visible to the workers; it stays
+	// counted until the apply stage is done with it (see PendingCount).
+	p.unfinished.Add(1)
 	select {
 	case p.submitChan <- item:
 		p.metrics.RecordSubmit()
 		return nil
 	case <-ctx.Done():
+		p.unfinished.Add(-1)
 		// Context cancelled while waiting - sequence gap is acceptable
 		// because this typically means shutdown.
 		return ctx.Err()
 	case <-p.ctx.Done():
+		p.unfinished.Add(-1)
 		return ErrPipelineStopped
 	}
 }
@@ -320,12 +327,11 @@ func (p *BlockPipeline) PendingCount() int {
 	if !p.started.Load() {
 		return 0
 	}
-	channelDepth := len(p.submitChan) + len(p.decodedChan) + len(p.validatedChan)
-	applyPending := 0
-	if p.applyStage != nil {
-		applyPending = p.applyStage.PendingCount()
-	}
-	return channelDepth + applyPending
+	// Every item is counted from Submit until the apply stage has processed
+	// it (applied, or skipped because it failed), wherever it currently is:
+	// in a channel, inside a decode/validate worker, buffered out of order or
+	// inside ApplyFunc.
+	return int(p.unfinished.Load())
 }
 
 // WaitForDrain blocks until all currently submitted items have been processed
